@@ -89,7 +89,8 @@ pub fn gen_params(r: &mut Rng) -> (String, Parameters) {
         fam = "preset+signs+offsets".into();
         for k in 0..6 {
             p.sign_corrections[k] = if r.chance(0.5) { 1 } else { -1 };
-            if r.chance(0.5) { p.offsets[k] = r.range(-PI, PI); }
+            // offsets beyond a full turn now and then: the normalisation loops then need more than one pass
+            if r.chance(0.5) { p.offsets[k] = if r.chance(0.2) { r.range(-3.0 * PI, 3.0 * PI) } else { r.range(-PI, PI) }; }
         }
     }
     if kind >= 6 {
